@@ -733,12 +733,18 @@ func main() {
 			// the run is executed up to three more times, same process history; it counts as
 			// reproduced if the first trace shows up again, and is listed as retried
 			again := false
+			seen := map[string]int{l.Result.TraceHash: 1}
 			for k := 0; k < 3 && !again && !info.Race; k++ {
 				rc := &collector{}
 				runBatch(bin, prop, seed, batch{0, l.Index + 1}, work, perRun, rc, nil)
 				for _, x := range rc.results {
-					if x.Index == l.Index && x.Result != nil && x.Result.TraceHash == h {
-						again = true
+					if x.Index == l.Index && x.Result != nil {
+						seen[x.Result.TraceHash]++
+						// the first trace shows up again, or the re-executions agree among themselves
+						// (then it was the first execution, inside the loaded batch, that was perturbed)
+						if x.Result.TraceHash == h || seen[x.Result.TraceHash] >= 2 {
+							again = true
+						}
 					}
 				}
 			}
